@@ -153,10 +153,27 @@ Theorem C10_ledger_is_replay_of_main_chain : forall cfg genesis_addr team_key g 
 Proof. exact ledger_is_replay_validated. Qed.
 Print Assumptions C10_ledger_is_replay_of_main_chain.
 
-(* NOT PROVED (stated): a node restarted from any commit prefix reaches the same final chain (the chain structure and
-   now the ledger component of every commit ARE proved above; what is missing is the equality of the final tips, which
-   depends on the fork choice between equally heavy tips).  It is checked on the implementation for the crash points of
-   every generated history (Check/C10.v), together with LMDB's own atomicity, which no model here can exhibit. *)
+(* CRASH AND REDELIVERY.  A node stopped after its k-th delivery holds the state after those k deliveries (whole
+   deliveries only); the restart check is the identity (C10_restart_is_identity); the deliveries are then offered again
+   from an earlier point j <= k.  When the re-offered deliveries j..k-1 are blocks the node holds (they were accepted
+   before the crash), the node ends in EXACTLY the state - tip, chain, index, ledger, every table - of the run that was
+   never interrupted. *)
+From Virel Require Proofs.Crash.
+Theorem C10_crash_recovers : forall cfg genesis_addr team_key n0 (ops : list (block * N)) (k j : nat),
+  (j <= k)%nat ->
+  Forall (fun op => get_block (run cfg genesis_addr team_key n0 (firstn k ops)) (b_hash (fst op)) <> None)
+         (skipn j (firstn k ops)) ->
+  run cfg genesis_addr team_key (run cfg genesis_addr team_key n0 (firstn k ops)) (skipn j ops)
+  = run cfg genesis_addr team_key n0 ops.
+Proof. exact Crash.crash_recovers. Qed.
+Print Assumptions C10_crash_recovers.
+
+(* The unconditional statement below is NOT a theorem of the model and is not claimed: a re-offered delivery that was
+   REFUSED the first time (a child that arrived before its parent, a block whose timestamp was still in the future) can
+   be accepted the second time, so the restarted node may hold more blocks - and a heavier tip - than the node that
+   never crashed; with equally heavy tips the kept tip depends on arrival order.  What the implementation check
+   (Check/C10.v) compares for the crash points of every generated history is therefore the final chain and ledger of
+   histories whose overlap is at most three deliveries; LMDB's own atomicity no model here can exhibit. *)
 Definition C10_crash_recovers_full : Prop := forall cfg genesis_addr team_key n0 (ops : list (block * N)) k j,
   (j <= k)%nat ->
   top (run cfg genesis_addr team_key (run cfg genesis_addr team_key n0 (firstn k ops)) (skipn j ops))
